@@ -354,3 +354,134 @@ def seconds_predicate(st, t):
     if (t * 100000).denominator == 1 and t < 2 ** 36 and back != t:
         return "seconds-grid-not-exact", {"printed": s, "parsed": repr(back)}
     return None
+
+
+# ---------------------------------------------------------------------------------------------
+# document level: the float texts of the REAL adm_to_xml output against the grid model
+# (theorem C08_roundtrip_model_floats_partial, Proofs/C08FloatDoc.lean: isFloatRow / isGainRow / isJumpRow)
+
+NUM_BOUND = 2 ** 36 * 10 ** 5
+
+GAIN_HANDLERS = ("handle_gain_element_v1 / gain_to_xml", "handle_gain_element_v2 / gain_to_xml",
+                 "handle_gain_element_v2 / optional_gain_to_xml", "handle_gain_attribute_v1 / gain_attribute_to_xml",
+                 "handle_gain_attribute_v2 / gain_attribute_to_xml")
+JUMP_HANDLER = "handle_jump_position / jump_position_to_xml"
+
+
+def dumps_num(k):
+    """Earverif.XmlCodec.dumpsNum (Model/XmlLeaf.lean), transliterated"""
+    return ("-" if k < 0 else "") + "%d.%s" % (abs(k) // 100000, str(abs(k) % 100000).rjust(5, "0"))
+
+
+def _local(e):
+    t = e.tag
+    return t.rsplit("}", 1)[-1] if isinstance(t, str) else None
+
+
+def _kids(xe, name):
+    return [c for c in xe if _local(c) == name]
+
+
+def _nested(nm, version):
+    """child element name -> (attribute of the real object, is a list, parser table name or a function of the object)"""
+    v = "v%d/" % version
+    return {
+        "loudnessMetadata": ("loudnessMetadata", True, lambda o: v + "loudnessMetadata"),
+        "audioBlockFormat": ("audioBlockFormats", True, lambda o: v + "audioBlockFormat:" + o.type.name),
+        "alternativeValueSet": ("alternativeValueSets", True, lambda o: v + "alternativeValueSet"),
+        "audioObjectInteraction": ("audioObjectInteraction", False, lambda o: v + "audioObjectInteraction"),
+        "audioProgrammeReferenceScreen": ("referenceScreen", False, lambda o: "audioProgrammeReferenceScreen"),
+    }
+
+
+def float_sites(xe, obj, nm, table, version, out, path=""):
+    """walk one element of the real XML together with the real object it was written for, along the regenerated
+    parser table `nm`: appends (path, kind, [values of the object], [texts in the XML]) for every declarative FloatType
+    row, every hand-written gain handler and jumpPosition/interpolationLength, then descends into the nested elements
+    rendered by their own parser tables.  Returns False when XML and object do not line up (reported by the caller)."""
+    _, rows = table[nm]
+    here = path + "/" + nm.split("/")[-1]
+    ok = True
+    for r in rows:
+        kind, adm, arg, att, ty, hdef, cdef, req, ponly, label, enum, handler = r
+        if ty == "FloatType" and kind in ("Attribute", "AttrElement", "ListElement"):
+            if ponly:
+                continue
+            val = getattr(obj, att)
+            if kind == "Attribute":
+                texts = [xe.get(adm)] if xe.get(adm) is not None else []
+            else:
+                texts = [c.text or "" for c in _kids(xe, adm)]
+            vals = list(val) if kind == "ListElement" else ([] if val is None else [val])
+            out.append((here + "/" + adm, "float", vals, texts))
+        elif handler in GAIN_HANDLERS:
+            g = getattr(obj, "gain", None)
+            if kind == "GenericElement":
+                texts = [xe.get("gain")] if xe.get("gain") is not None and xe.get("gainUnit") != "dB" else []
+            else:
+                texts = [c.text or "" for c in _kids(xe, "gain") if c.get("gainUnit") != "dB"]
+            out.append((here + "/gain", "float", [] if g is None else [g], texts))
+        elif handler == JUMP_HANDLER:
+            jp = getattr(obj, "jumpPosition", None)
+            texts = [c.get("interpolationLength") for c in _kids(xe, "jumpPosition") if c.get("interpolationLength") is not None]
+            vals = [] if jp is None or jp.interpolationLength is None else [jp.interpolationLength]
+            out.append((here + "/jumpPosition@interpolationLength", "seconds", vals, texts))
+    nested = _nested(nm, version)
+    for cname, (att, is_list, sub) in nested.items():
+        cs = _kids(xe, cname)
+        if not cs:
+            continue
+        if not hasattr(obj, att):
+            ok = False
+            continue
+        objs = list(getattr(obj, att)) if is_list else [getattr(obj, att)]
+        if len(objs) != len(cs) or any(o is None for o in objs):
+            ok = False
+            continue
+        for i, (c, o) in enumerate(zip(cs, objs)):
+            try:
+                subnm = sub(obj)
+            except Exception:
+                ok = False
+                continue
+            if subnm in table:
+                ok = float_sites(c, o, subnm, table, version, out, "%s[%d]" % (here, i)) and ok
+    if nm.endswith("audioBlockFormat:Matrix"):
+        ms = _kids(xe, "matrix")
+        coeffs = [c for m in ms for c in _kids(m, "coefficient")]
+        objs = list(getattr(obj, "matrix", []) or [])
+        if len(coeffs) != len(objs):
+            ok = False
+        else:
+            for i, (c, o) in enumerate(zip(coeffs, objs)):
+                ok = float_sites(c, o, "v%d/coefficient" % version, table, version, out, "%s/matrix[%d]" % (here, i)) and ok
+    return ok
+
+
+def grid_of(kind, x):
+    """the model's grid value k of a value of the real object (x = the double nearest to k / 10^5, resp. the Fraction
+    k / 10^5), or None when the value is outside NumsBounded / off the grid / a negative zero"""
+    if kind == "seconds":
+        f = Fraction(x) * 100000
+        if f.denominator != 1 or not (0 <= f.numerator < NUM_BOUND):
+            return None
+        return f.numerator
+    if isinstance(x, bool) or not isinstance(x, (int, float)):
+        return None
+    x = float(x)
+    if x != x or math.isinf(x) or (x == 0 and math.copysign(1.0, x) < 0):
+        return None
+    k = int(round(x * 100000))
+    if abs(k) >= NUM_BOUND or k / 100000.0 != x:
+        return None
+    return k
+
+
+def site_expectation(kind, x):
+    """(k, the text the model writes, the text the real format string writes for the model's value)"""
+    k = grid_of(kind, x)
+    if k is None:
+        return None
+    if kind == "seconds":
+        return k, dumps_num(k), "{:07.5f}".format(float(Fraction(k, 100000)))
+    return k, dumps_num(k), "{:.5f}".format(k / 100000.0)
